@@ -83,9 +83,36 @@ def make_image(desc, N, seed):
         im = rng.random((N, N))
     elif kind == "checker":
         im = ((x.astype(int) + y.astype(int)) % 2).astype(float)
+    # ---- CONTENT that data-dependent branches key on (an "empty slice" test on the sum, a sparsity test, a symmetry test)
+    elif kind == "zeros":
+        im = np.zeros((N, N))
+    elif kind == "const":
+        im = np.ones((N, N))
+    elif kind == "pm_pair":  # +1 / -1: the pixel sum is exactly zero although the image is not
+        im = np.zeros((N, N))
+        c = N // 2
+        im[c, c - 1 if N > 2 else c], im[c - 1 if N > 2 else c, c] = 1.0, -1.0
+    elif kind == "antisym":  # integer image whose pixel sum is exactly zero
+        im = np.round(np.random.default_rng([seed, 7, N, 77]).random((N, N)) * 9) * m
+        im[N // 2, N // 2] -= im.sum()  # integers: the sum over the disc is EXACTLY zero
+    elif kind == "sym":  # exact mirror symmetry in both axes about the rotation centre row / column where the size allows
+        a = np.round(np.random.default_rng([seed, 7, N, 78]).random((N, N)) * 9)
+        im = a + a[::-1, :] + a[:, ::-1] + a[::-1, ::-1]
+    elif kind == "sparse_int":  # more than half of the pixels exactly zero, the others small integers
+        r = np.random.default_rng([seed, 7, N, 79])
+        im = np.where(r.random((N, N)) < 0.2, np.round(r.random((N, N)) * 5 + 1), 0.0)
+    elif kind == "rows_equal":
+        im = np.tile((np.arange(N) % 3 + 1.0)[:, None], (1, N))
+    elif kind == "negative":
+        im = -1.0 - np.random.default_rng([seed, 7, N, 80]).random((N, N))
+    elif kind == "pow2":
+        im = 2.0 ** np.round(np.random.default_rng([seed, 7, N, 81]).random((N, N)) * 6 - 3)
     else:
         raise ValueError(desc)
     return im * m
+
+
+CONTENT = [("zeros",), ("const",), ("pm_pair",), ("antisym",), ("sym",), ("sparse_int",), ("rows_equal",), ("negative",), ("pow2",)]
 
 
 def angle_sets(tier_quick, N):
@@ -152,6 +179,8 @@ def check_radon_case(t, N, aname, theta, descs, seed, batch):
             d = descs[i + j]
             ref = _radon_ref(im, theta)
             case = {"kind": "radon", "N": N, "angles": theta, "angle_set": aname, "image": list(d), "batch": batch}
+            if 1 < len(chunk) <= 12:
+                case["batch_images"] = [list(x) for x in descs[i : i + batch]]
             nz = bool(np.any(ref != 0))
             t.case(key=["radon", N, aname, list(d)], nontrivial=nz, outcome=[round(float(ref.sum()), 6), round(float(np.abs(ref).max()), 6)])
             if got[j].shape != ref.shape:
@@ -200,6 +229,24 @@ def w_radon_images(item, seed=0, quick=True):
     for aname, theta in sets:
         for batch in (1, 2, 3):
             check_radon_case(t, N, aname, theta, IMAGES, seed, batch=batch)
+    # content alphabet (data-dependent branches): every member alone and in batches that mix it with ordinary images
+    for aname, theta in [("grid15", GRID15), ("irregular", IRREG), ("single0", [0.0])]:
+        for batch in (1, 2, 3, len(CONTENT) + 2):
+            check_radon_case(t, N, aname, theta, [("noise", 0)] + CONTENT + [("edge",)], seed, batch=batch)
+    for d1, d2 in [(("noise", 0), ("noise", 1)), (("sparse_int",), ("sym",)), (("pow2",), ("negative",))]:
+        # linearity where the combination has CONTENT its terms do not have: a - b sums to zero / is sparse / is all zero
+        a_, b_ = make_image(d1, N, seed), make_image(d2, N, seed)
+        b_ = b_ * (a_.sum() / b_.sum()) if d1[0] == "noise" and b_.sum() != 0 else b_
+        for al_, be_ in ((1.0, -1.0), (1.0, -1.0 if d1[0] != "noise" else -1.0), (2.0, -2.0)):
+            for x_, y_ in ((a_, b_), (a_, a_)):
+                lhs_ = _radon_lib(al_ * x_ + be_ * y_, IRREG)
+                rhs_ = al_ * _radon_lib(x_, IRREG) + be_ * _radon_lib(y_, IRREG)
+                sc_ = max(float(np.abs(_radon_lib(x_, IRREG)).max()), 1e-30)
+                e_ = float(np.abs(lhs_ - rhs_).max()) / sc_
+                case = {"kind": "radon_linearity_content", "N": N, "images": [list(d1), list(d2)], "same": x_ is y_, "coef": [al_, be_]}
+                t.case(key=case, nontrivial=True)
+                if e_ > TOL:
+                    t.fail({"relation": "radon_linear", "content": d1[0] + "-" + (d1[0] if y_ is x_ else d2[0])}, case, f"radon_torch not linear on content: N={N} R({al_}*{d1}+{be_}*{d2 if y_ is not x_ else d1}) differs from the combination of the transforms by {e_:.3e} of max")
     # linearity on seeded pairs
     theta = IRREG
     a, b = make_image(("noise", 0), N, seed), make_image(("edge",), N, seed)
@@ -236,6 +283,12 @@ def make_sino(desc, N, theta, seed):
         return s
     if desc[0] == "snoise":
         return np.random.default_rng([seed, 11, N, A, desc[1]]).random((A, N))
+    if desc[0] == "scontent":  # sinogram CONTENT data-dependent branches key on: see make_image; values laid out as (A, N)
+        big = make_image(tuple(desc[1]), max(A, N) + 2, seed) if desc[1][0] not in ("zeros", "const") else (np.zeros if desc[1][0] == "zeros" else np.ones)((max(A, N) + 2, max(A, N) + 2))
+        s = np.array(big[1 : A + 1, 1 : N + 1])
+        if desc[1][0] == "antisym":
+            s = s - s[:, ::-1]  # every projection sums to exactly zero
+        return s
     if desc[0] == "sradon":  # a consistent sinogram: skimage radon of an image
         return _radon_ref(make_image(tuple(desc[1]), N, seed), theta)
     raise ValueError(desc)
@@ -252,6 +305,8 @@ def check_iradon_case(t, N, aname, theta, f, descs, seed, batch):
             d = descs[i + j]
             ref = _iradon_ref(s, theta, f)
             case = {"kind": "iradon", "N": N, "angles": theta, "angle_set": aname, "filter": f, "sino": [d[0]] + [list(x) if isinstance(x, tuple) else x for x in d[1:]], "batch": batch}
+            if 1 < len(chunk) <= 12:
+                case["batch_sinos"] = [[x[0]] + [list(y) if isinstance(y, tuple) else y for y in x[1:]] for x in descs[i : i + batch]]
             nz = bool(np.any(ref != 0))
             t.case(key=["iradon", N, aname, f, case["sino"]], nontrivial=nz, outcome=[round(float(ref.sum()), 6), round(float(np.abs(ref).max()), 6)])
             if got[j].shape != ref.shape:
@@ -296,6 +351,11 @@ def w_iradon_images(item, seed=0, quick=True):
     for aname, theta in sets:
         for batch in (1, 3):
             check_iradon_case(t, N, aname, theta, f, descs, seed, batch=batch)
+    # content alphabet for sinograms (data-dependent branches), alone and mixed into batches
+    cdescs = [("snoise", 0)] + [("scontent", c) for c in CONTENT] + [("sradon", ("pm_pair",)), ("sradon", ("antisym",))]
+    for aname, theta in [("grid15", GRID15[:-1]), ("irregular", IRREG)]:
+        for batch in (1, 3, len(cdescs)):
+            check_iradon_case(t, N, aname, theta, f, cdescs, seed, batch=batch)
     if N in (5, 8, 22):
         # dtype corner: integer / bool / float64 sinogram tensors (HEAD reconstructs them like their float32 values)
         torch, R = _lib()
@@ -624,11 +684,21 @@ def replay(ctx, case):
     if k == "filter":
         t = w_filter((case["size"], case["filter"]), seed=seed)
     elif k == "radon":
-        check_radon_case(t, case["N"], case["angle_set"], [float(a) for a in case["angles"]], [tuple(case["image"])], seed, batch=1)
+        descs = [tuple(x) for x in case.get("batch_images") or [case["image"]]]
+        r = Tally()
+        check_radon_case(r, case["N"], case["angle_set"], [float(a) for a in case["angles"]], descs, seed, batch=len(descs) if len(descs) > 1 else case.get("batch", 1) if len(descs) > 1 else 1)
+        t.fails = [f for f in r.fails if f["case"]["image"] == case["image"]]
     elif k == "iradon":
-        d = case["sino"]
-        desc = (d[0],) + tuple(tuple(x) if isinstance(x, list) else x for x in d[1:])
-        check_iradon_case(t, case["N"], case["angle_set"], [float(a) for a in case["angles"]], case["filter"], [desc], seed, batch=1)
+        def und(d):
+            return (d[0],) + tuple(tuple(x) if isinstance(x, list) else x for x in d[1:])
+
+        descs = [und(x) for x in case.get("batch_sinos") or [case["sino"]]]
+        r = Tally()
+        check_iradon_case(r, case["N"], case["angle_set"], [float(a) for a in case["angles"]], case["filter"], descs, seed, batch=max(1, len(descs)))
+        t.fails = [f for f in r.fails if f["case"]["sino"] == case["sino"]]
+    elif k == "radon_linearity_content":
+        r = w_radon_images(case["N"], seed=seed, quick=True)
+        t.fails = [f for f in r.fails if f["case"].get("kind") == k and f["case"].get("images") == case["images"] and f["case"].get("same") == case["same"] and f["case"].get("coef") == case["coef"]]
     elif k == "call_history":
         import importlib, sys
 
